@@ -29,6 +29,17 @@ def evaluate(case, stages=None):
 
 
 def _evaluate(case, stages, viols, info):
+    from mc import rulecov
+
+    rulecov.install()
+    rulecov.drain()
+    try:
+        return _evaluate2(case, stages, viols, info)
+    finally:
+        info["rules"] = [list(t) for t in rulecov.drain()]
+
+
+def _evaluate2(case, stages, viols, info):
     ops = case["ops"]
     try:
         src = tables.source(case["src"])
@@ -121,11 +132,24 @@ def run(ctx):
         "non-trivial = the optimiser produced a plan structurally different from the unoptimised lowering"
     )
     ctx.cov["plan"] = plan
+    rules = set()
     for sources, tiers in plan:
         res = explore.bfs(ctx, evaluate, sources, tiers)
         for case, r in res:
+            for t in r.get("info", {}).pop("rules", []):
+                rules.add(tuple(t))
             if r["status"] == "ok" and len(case["ops"]) == len(tiers):
                 ctx.sample(explore.prog_key(case), cap=12)
+    from mc import rulecov
+
+    den = rulecov.denominators()
+    cov = {}
+    for h, classes in den.items():
+        ran = {c for (c, hh, _, _) in rules if hh == h}
+        fired = {c for (c, hh, _, f) in rules if hh == h and f}
+        cov[h] = {"defined_in": len(classes), "executed": len(ran & classes), "fired": len(fired & classes), "never_executed": sorted(classes - ran)}
+    ctx.cov["rule_coverage"] = cov
+    ctx.cov["rule_contexts_seen"] = len(rules)
     ctx.assumptions += [
         "reference = expr.lower_completely() executed by dask.local.get_sync",
         "value comparison only where the query defines the value (typing in mc/ops.py); otherwise container+labels only",
